@@ -5,7 +5,7 @@ from mc import core, det, domains, sse
 PROPERTY = 'C06'
 ENGINE = 'E1 bounded-exhaustive enumeration: all keyword-order permutations of small databases (label tables); all block-count profiles in a window x two setups (array placement)'
 LEVEL = 'model_checking'
-DIRECTED_ADDITIONS = 'ten setups per deep case (no block at one slot in all), DP17 in-bucket order, copies of one scheme object, 5400-posting label tables in three keyword orders, empty posting lists'      # members added during the seeded-change campaign (DESIGN 7); counted under their own vacuity counters
+DIRECTED_ADDITIONS = 'three workers forked from a process that has built an index, ten setups per deep case (no block at one slot in all), DP17 in-bucket order, copies of one scheme object, 5400-posting label tables in three keyword orders, empty posting lists'      # members added during the seeded-change campaign (DESIGN 7); counted under their own vacuity counters
 
 LABEL_SCHEMES = ['CJJ14.PiBas', 'CJJ14.PiPack', 'CJJ14.PiPtr', 'CJJ14.Pi2Lev', 'CT14.Pi', 'ANSS16.Scheme3']
 ARRAY_SCHEMES = ['CJJ14.PiPtr', 'CJJ14.Pi2Lev', 'CGKO06.SSE1', 'DP17.Pi']
@@ -154,7 +154,52 @@ def units(tier, seed):
             n = len(b_profiles(name, cfg, tier))
             for k in range(0, n, 10):
                 us.append(('B/%s/%s/%d' % (name, label, k), {'part': 'B', 'scheme': name, 'label': label, 'cfg': cfg, 'lo': k, 'hi': k + 10}))
+        label, cfg = b_points(name, tier)[0]
+        us.append(('B-forked/%s' % name, {'part': 'B-forked', 'scheme': name, 'label': label, 'cfg': cfg}))
     return us
+
+
+def run_forked(r, seed, name, label, cfg, prof):
+    """setup of one database (same key where placement is random, fresh key where it is key-derived) by three workers forked from
+    a process that has already built an index: the workers' placements differ pairwise and from the parent's"""
+    case = {'part': 'B', 'scheme': name, 'label': label, 'cfg': cfg, 'profile': prof, 'forked_workers': 3}
+    core.note_case(case)
+    db, cfg1, g = sse.build_db(seed, name, label, cfg, prof, 6, 'disjoint')
+    det.restore()
+    L = sse.loader(name)
+    r['evaluations'] += 1
+    r['states'] += 1
+    r['nontrivial'] += 1
+    try:
+        scheme = L.SSEScheme(cfg1)
+        key = scheme.KeyGen()
+        first = placement(name, scheme, key, scheme.EDBSetup(key, db), db)
+    except Exception as e:
+        r.v(PROPERTY, name, 'array-case-raises', '%s:%s' % (core.exc_site(e), type(e).__name__), case, 'setup and searches succeed', core.exc_text(e))
+        return
+
+    def work(i):
+        k = scheme.KeyGen() if name == 'CGKO06.SSE1' else key
+        return placement(name, scheme, k, scheme.EDBSetup(k, db), db)
+    res = det.forked(3, work)
+    r['transitions'] += 4 * (2 + 2 * len(db))
+    if any(t != 'ok' for t, _ in res):
+        r.v(PROPERTY, name, 'array-case-raises', 'in-forked-worker', case, 'setup works in a forked worker', repr([x for t, x in res if t != 'ok'][:1]))
+        return
+    ps = [first] + [x for _, x in res]
+    nslots = sum(len(v[0]) if name == 'DP17.Pi' else len(v) for v in first.values())
+    if nslots < 12:
+        r.v(PROPERTY, name, 'too-few-slots-read', 'harness', case, '>= 12 array slots read', nslots)
+        return
+    r.count('forked-worker-placements-compared', len(ps))
+    for i in range(len(ps)):
+        for j in range(i + 1, len(ps)):
+            if ps[i] == ps[j]:
+                r.v(PROPERTY, name, 'placement-repeats', 'across-forked-workers', case, 'block placement differs between setups in different worker processes',
+                    'setups %d and %d (0 = parent): identical slots for every keyword (%d slots)' % (i, j, nslots))
+                r.outcome('placement-repeats')
+                return
+    r.outcome('placement-differs')
 
 
 def run_a_case(r, seed, name, label, cfg, prof, perms=None):
@@ -395,6 +440,9 @@ def run_unit(p, tier, seed):
             if sse.valid_profile(name, cfg, prof):
                 run_a_case(r, seed, name, label, cfg, prof)
         r.sample({'part': 'A', 'scheme': name, 'cfg_point': label, 'profiles': 'all partitions with 2..4 keywords', 'permutations': 'all'})
+    elif p['part'] == 'B-forked':
+        profs = b_profiles(name, cfg, tier)
+        run_forked(r, seed, name, label, cfg, profs[len(profs) // 2])
     elif p['part'] == 'A-large':
         for prof in LARGE_A[tier]:
             if sse.valid_profile(name, cfg, prof):
@@ -409,7 +457,9 @@ def run_unit(p, tier, seed):
 
 def replay(case, seed):
     r = core.Result()
-    if case['part'] == 'A':
+    if case.get('forked_workers'):
+        run_forked(r, seed, case['scheme'], case['label'], case['cfg'], case['profile'])
+    elif case['part'] == 'A':
         run_a_case(r, seed, case['scheme'], case['label'], case['cfg'], case['profile'], perms=bool(case.get('large')))
     else:
         run_b_case(r, seed, case['scheme'], case['label'], case['cfg'], case['profile'], deep=bool(case.get('deep')))
